@@ -46,6 +46,7 @@ structure Mon where
   level : List (Nat × Nat) := []                   -- material ↦ level (0 data, 1 intermediate, 2 system)
   usedForPayload : List Nat := []
   fills : List ((Nat × String × Int) × String) := []   -- (cache owner, IK id, created) ↦ how the owner's cache last got it
+  newest : List ((Nat × String) × Int) := []        -- (cache owner, IK id) ↦ stamp its "latest" alias points to
   lastOp : Option (List String × Bool) := none     -- previous operation words, succeeded without faults?
   unwraps : List ((Nat × Int) × Int) := []          -- (factory, SK created) ↦ time of its last KMS unwrap
   multi : Nat := 0
@@ -227,6 +228,7 @@ def Mon.observe (m : Mon) (ws : List String) (fields : List (String × String)) 
           fails ++ [("C20", "repeating a successful encrypt immediately still called the metastore / KMS")] else fails
       | _ => fails
     ({ m' with recs := m.recs.push { pay := argN 2, part := part, ik := ik },
+               newest := ((owner, ikId), ik) :: m.newest.filter (fun (k, _) => k != (owner, ikId)),
                fills := ((owner, ikId, ik), fillKind) :: m.fills.filter (fun (k, _) => k != (owner, ikId, ik)) }, fails)
   | some "dec" =>
     let s := argN 1
@@ -258,8 +260,22 @@ def Mon.observe (m : Mon) (ws : List String) (fields : List (String × String)) 
       let loadedExact := cs.any fun c => c.startsWith s!"L:ik{part}@{r.ik}:1"
       let owner : Nat := if p.sharedIK then 1000000 + f else s
       let key := (owner, s!"ik{part}", r.ik)
-      let m' := if loadedExact then
-          { m' with fills := (key, "latest-alias-installed-by-decrypt") :: m'.fills.filter (fun (k, _) => k != key) } else m'
+      -- F-11 is: a key loaded by its exact stamp becomes the alias when the cache has NO alias for the id
+      -- yet, or an OLDER one.  On an unbounded cache whose alias already points to a newer key nothing of
+      -- the sort may happen: an encrypt under the old key afterwards is not that finding.
+      let aliasMoves : Bool := match m.newest.lookup (owner, s!"ik{part}") with
+        | none => true
+        | some c => c < r.ik
+      -- (alias already AT this key: the decrypt's reload refreshes the very entry the encrypt path treats as
+      -- latest - the same finding seen from the other side)
+      let aliasHere : Bool := (m.newest.lookup (owner, s!"ik{part}")) == some r.ik
+      let m' := if loadedExact && (aliasMoves || aliasHere || p.ikKind.isSome) then
+          { m' with fills := (key, "latest-alias-installed-by-decrypt") :: m'.fills.filter (fun (k, _) => k != key),
+                    newest := if aliasMoves then ((owner, s!"ik{part}"), r.ik) :: m'.newest.filter (fun (k, _) => k != (owner, s!"ik{part}"))
+                              else m'.newest }
+        else if loadedExact && (m.newest.lookup (owner, s!"ik{part}")).any (· > r.ik) then
+          { m' with fills := m'.fills.filter (fun (k, _) => k != key) }
+        else m'
       let fails := match m.lastOp with
         | some (pw, true) =>
           if pw.take 3 == ws.take 3 && genuine && kvOf pw "mut" == mut_ && noFault && ok && p.cacheIK && !m.corrupted && cs.any isExternal then
